@@ -354,10 +354,30 @@ End Phase0.
 (* ---- free(addr) ----------------------------------------------------------------- *)
 Definition is_live (s : st) (a n : Z) : Prop := at_ s a = Some (mkB a n true).
 
-Lemma free_noop s addr : Pre s -> off s <= addr < hi s ->
+Lemma free_guard_in s addr : off s <= addr < hi s ->
+  negb ((0 <=? addr - off s) && (addr - off s <? size s)) = false.
+Proof.
+  unfold hi. intros H. destruct (Z.leb_spec 0 (addr - off s)); destruct (Z.ltb_spec (addr - off s) (size s)); simpl; auto; lia.
+Qed.
+
+Lemma free_guard_out s addr : ~ (off s <= addr < hi s) ->
+  negb ((0 <=? addr - off s) && (addr - off s <? size s)) = true.
+Proof.
+  unfold hi. intros H. destruct (Z.leb_spec 0 (addr - off s)); destruct (Z.ltb_spec (addr - off s) (size s)); simpl; auto; lia.
+Qed.
+
+(* an address outside the partition is ignored, whatever the variant *)
+Lemma free_outside rel s addr : ~ (off s <= addr < hi s) -> free rel s addr = Ok s.
+Proof. intros H. unfold free. rewrite free_guard_out by auto. reflexivity. Qed.
+
+Lemma free_noop s addr : Pre s ->
   (forall n, ~ is_live s addr n) -> free true s addr = Ok s.
 Proof.
-  intros P Hr Hn. unfold free. rewrite aget_at by (auto using P_len). simpl.
+  intros P Hn.
+  destruct (Z.le_gt_cases (off s) addr) as [H1|H1]; [destruct (Z.lt_ge_cases addr (hi s)) as [H2|H2]|];
+    try (apply free_outside; lia).
+  assert (Hr : off s <= addr < hi s) by lia.
+  unfold free. rewrite free_guard_in by auto. rewrite aget_at by (auto using P_len). simpl.
   destruct (at_ s addr) as [[x m u]|] eqn:E; auto. simpl.
   destruct u; auto. exfalso. pose proof (P_cell s P _ _ E) as Hc. simpl in Hc.
   destruct Hc as (-> & _). apply (Hn m). exact E.
@@ -378,7 +398,7 @@ Proof.
   destruct (merge_next_spec _ x2 m2 P2 Hb2 C2) as (s3 & m3 & E3 & A3 & Hb3 & Hm3 & U3 & K3).
   exists s3, x2, m3.
   split.
-  - unfold free. rewrite aget_at by auto. rewrite Hb. simpl.
+  - unfold free. rewrite free_guard_in by auto. rewrite aget_at by auto. rewrite Hb. simpl.
     unfold hi in *. rewrite aset_in by lia. simpl.
     change (set_used (mkB addr m true) false) with (mkB addr m false).
     change (add_to_freed (with_arr s (setz (arr s) (addr - off s) (Some (mkB addr m false)))) (mkB addr m false))
